@@ -200,9 +200,7 @@ def main(ctx):
         "samples": list(samples.values()),
         "distribution": dist,
         "traces_validated_against_impl": n_cases,
-        "not_yet_proved": [
-            "C14_apx_read_of_written_partial: missing (1) write_apx f = the arg/att lines of the live labels and live attacks of every reachable store f, (2) attack set of apx_result labels pairs = pairs; both covered on every run by the byte-exact correspondence and the Rust-side round trip",
-        ],
+        "not_yet_proved": [],
     })
     ctx.assumptions += [
         "io::Write accepts every byte (write errors are not modelled)",
